@@ -119,6 +119,8 @@ func vrfVer(withY bool) string {
 
 // ---------------------------------------------------------------------------------------------
 
+var vrfKeyBuf [64]byte
+
 func genE1(g *Gen) {
 	em := func(class string, fields ...string) {
 		if !g.Full() {
@@ -371,6 +373,12 @@ func execE1(op string, a []string) string {
 	switch op {
 	case "vrf.prove":
 		sk, alpha := ed25519.PrivateKey(unhex(a[1])), unhex(a[2])
+		if len(sk) == len(vrfKeyBuf) {
+			// the caller's key lives in ONE buffer that is overwritten in place from call to call: nothing may be
+			// remembered about a key by reference
+			copy(vrfKeyBuf[:], sk)
+			sk = ed25519.PrivateKey(vrfKeyBuf[:])
+		}
 		if a[0] == "v10" {
 			return "ok " + hx(ecvrf.Prove_v10(sk, alpha))
 		}
